@@ -56,14 +56,16 @@ def mergeStep (range : Option Range) (s : MergeSt) : MergeSt :=
     let usr := if s.vals.length < old.usr then s.vals.length else old.usr
     let pt0 := linepartLinear (s.vals.take usr) range
     -- cut and trim of the old part are taken over only when the new part draws something (fix in /repo)
-    let pt1 : Part := { pt0 with cut := if pt0.usr ≠ 0 ∧ old.cut > pt0.cut then old.cut else pt0.cut }
+    let pt1a : Part := { pt0 with cut := if pt0.usr ≠ 0 ∧ old.cut > pt0.cut then old.cut else pt0.cut }
+    -- the trim of the old part belongs to the new part when that ends on the old part's last drawn point
+    -- (fix in /repo: it used to be lost for a partial segment and taken over for an earlier end)
+    let pt1 : Part := { pt1a with trim := if pt1a.usr ≠ 0 ∧ pt1a.usr = usr ∧ old.trim > pt1a.trim then old.trim else pt1a.trim }
     if pt1.raw < old.raw then
       -- partial segment: the rest of the old part stays current
       let old' : Part := { old with raw := old.raw - pt1.raw, usr := usr - pt1.raw, cut := 0 }
       { s with old := old', vals := s.vals.drop pt1.raw, out := pushPart s.out pt1 }
     else
-      let pt2 : Part := { pt1 with raw := if old.raw < pt1.raw then old.raw else pt1.raw,
-                                   trim := if pt1.usr ≠ 0 ∧ old.trim > pt1.trim then old.trim else pt1.trim }
+      let pt2 : Part := { pt1 with raw := if old.raw < pt1.raw then old.raw else pt1.raw }
       let s1 := nextOld { s with vals := s.vals.drop pt2.raw }
       { s1 with out := pushPart s.out pt2 }
 
